@@ -5,6 +5,7 @@ import Driver.Store
 import Driver.C19
 import Driver.Table
 import Driver.Lookup
+import Driver.C11
 /-! Line-protocol driver. Usage: `drv <property>`; stdin: `op args… | impl-output`;
     stdout: one `MISMATCH`/`MONITOR` line per problem and a final `DONE` summary with coverage tags. -/
 open Drv
@@ -85,6 +86,7 @@ def main (args : List String) : IO UInt32 := do
   | ["C19", "ideal"] => finish (← loopStateless (Drv.C19.step false) h {})
   | ["table", prop] => finish (← loopStateful (Drv.Table.step prop) h {} {})
   | ["lookup"] => finish (← loopStateful Drv.Lookup.step h {} {})
+  | ["C11"] => finish (← loopStateless Drv.C11.step h {})
   | ["inrange"] => finish (← loopStateless Drv.Store.inRangeStep h {})
   | ["store", prop] => finish (← loopStateful (Drv.Store.step prop) h {} {})
   | _ => IO.eprintln "usage: drv <property>"; return 2
